@@ -26,6 +26,9 @@ import tempfile
 from vlib.core import HarnessError, VERIF
 
 
+ENGINE = "atheris (thorough: live libFuzzer campaign; quick: deterministic replay of the committed coverage corpus)"
+
+
 def available():
     try:
         import atheris  # noqa
@@ -34,23 +37,51 @@ def available():
         return False
 
 
+def corpus_path(prop, target):
+    return os.path.join(VERIF, "corpora", "%s-%s.b64l" % (prop, target))
+
+
+def load_corpus(prop, target):
+    """committed corpus of a target: one base64 line per input (inputs libFuzzer kept because they reached new code in ural)"""
+    import base64
+    p = corpus_path(prop, target)
+    if not os.path.exists(p):
+        return []
+    with open(p) as f:
+        return [base64.b64decode(line) for line in f if line.strip()]
+
+
 def fuzz_campaign(target, runs=(4000, 150000), max_len=96, dictionary=(), corpus=()):
+    """quick tier: deterministic replay of the committed corpus through decode + evaluator, in process, no libFuzzer (a run is a pure function
+    of the tree); thorough tier: live libFuzzer campaign seeded with that corpus (only approximately reproducible: the saved case is the unit)."""
     def fn(acc, shard, nshards, seed, tier, **params):
+        prop = acc.module.PROPERTY
+        decode, nontrivial, classes = acc.module.FUZZ_TARGETS[target]
+        saved = load_corpus(prop, target) + [c if isinstance(c, bytes) else c.encode("utf-8") for c in corpus]
+        if tier == "quick" and not params.get("live"):
+            for i, data in enumerate(saved):
+                if i % nshards != shard:
+                    continue
+                case = decode(data)
+                if case is not None:
+                    acc.check(case, nontrivial, classes(case) if (classes is not None and i % 17 == 0) else ())
+            acc.extra["corpus_inputs_replayed"] = acc.extra.get("corpus_inputs_replayed", 0) + len(saved[shard::nshards])
+            return
         if not available():
-            acc.notes.append("atheris is not importable: coverage-guided campaign %r skipped" % target)
+            acc.notes.append("atheris is not importable: live coverage-guided campaign %r skipped" % target)
             return
         n = runs[0] if tier == "quick" else runs[1]
         n = params.get("runs", n)
         # scratch lives under /verif/out (git-ignored), never under /tmp
         base = os.path.join(VERIF, "out", "fuzz")
         os.makedirs(base, exist_ok=True)
-        work = tempfile.mkdtemp(prefix="%s-%s-%d-" % (acc.module.PROPERTY, target, shard), dir=base)
+        work = tempfile.mkdtemp(prefix="%s-%s-%d-" % (prop, target, shard), dir=base)
         try:
             cdir = os.path.join(work, "corpus")
             os.makedirs(cdir)
-            for i, c in enumerate(corpus):
-                with open(os.path.join(cdir, "seed%03d" % i), "wb") as f:
-                    f.write(c if isinstance(c, bytes) else c.encode("utf-8"))
+            for i, c in enumerate(saved[shard::nshards] + saved[:40]):
+                with open(os.path.join(cdir, "seed%05d" % i), "wb") as f:
+                    f.write(c)
             dpath = os.path.join(work, "dict")
             with open(dpath, "w") as f:
                 for tok in dictionary:
@@ -68,16 +99,22 @@ def fuzz_campaign(target, runs=(4000, 150000), max_len=96, dictionary=(), corpus
             r = subprocess.run(cmd, cwd=VERIF, stdout=subprocess.PIPE, stderr=subprocess.STDOUT, text=True, errors="replace")
             if not os.path.exists(out):
                 raise HarnessError("fuzz child for %s/%s shard %d left no result (rc=%d):\n%s" % (
-                    acc.module.PROPERTY, target, shard, r.returncode, r.stdout[-3000:]))
+                    prop, target, shard, r.returncode, r.stdout[-3000:]))
             with open(out, "rb") as f:
                 d = pickle.load(f)
             if d.get("harness_error"):
-                raise HarnessError("fuzz child for %s/%s: %s" % (acc.module.PROPERTY, target, d["harness_error"]))
+                raise HarnessError("fuzz child for %s/%s: %s" % (prop, target, d["harness_error"]))
             if d["extra"].get("fuzz_inputs", 0) < n * 0.5:
                 # libFuzzer stopped early: a crash of the target (harness bug) or a timeout
                 raise HarnessError("fuzz child for %s/%s shard %d stopped after %d of %d inputs (rc=%d):\n%s" % (
-                    acc.module.PROPERTY, target, shard, d["extra"].get("fuzz_inputs", 0), n, r.returncode, r.stdout[-3000:]))
+                    prop, target, shard, d["extra"].get("fuzz_inputs", 0), n, r.returncode, r.stdout[-3000:]))
             acc.merge(d)
+            export = os.environ.get("VERIF_FUZZ_EXPORT")
+            if export:     # development: keep what libFuzzer added to the corpus (tools/fuzz_corpus.py merges it into corpora/)
+                dest = os.path.join(export, "%s-%s" % (prop, target))
+                os.makedirs(dest, exist_ok=True)
+                for name in os.listdir(cdir):
+                    shutil.copy(os.path.join(cdir, name), os.path.join(dest, "%d-%s" % (shard, name)))
         finally:
             shutil.rmtree(work, ignore_errors=True)
     return fn
